@@ -232,9 +232,10 @@ class NotApplicable(Exception):
 
 class Gen:
     def __init__(self, rng, ntables=3, max_tr=6, nlets=None, kinds=None, declared=True, shared_k=True,
-                 append_inline=False, open_take=True, dup_names=True, forced=None, literal=False, functions=False):
+                 append_inline=False, open_take=True, dup_names=True, forced=None, literal=False, functions=False, simple_sort=False):
         self.rng = rng
         self.forced = forced
+        self.simple_sort = simple_sort
         self.functions = functions
         self.shared_k, self.append_inline, self.open_take, self.dup_names = shared_k, append_inline, open_take, dup_names
         self.schema = Schema(rng, ntables, shared_k, literal)
@@ -310,7 +311,7 @@ class Gen:
         n = rng.randint(1, 4)
         items, sx, nf = [], [], []
         used = set()
-        if getattr(self, "cur_sort", None) and rng.random() < 0.7:
+        if getattr(self, "cur_sort", None) and (rng.random() < 0.7 or self.simple_sort):
             # keep the columns the sort in effect is keyed on, so that later transforms can still rely on that order
             names = [c.name for c in frame]
             for n_, _ in self.cur_sort:
@@ -380,7 +381,7 @@ class Gen:
             if c.ty not in (INT, TXT):
                 continue
             desc = rng.random() < 0.4
-            if rng.random() < 0.25 and c.ty == INT:
+            if rng.random() < 0.25 and c.ty == INT and not self.simple_sort:
                 e = ExprGen(rng, frame, depth=1).gen(INT)
                 if e[0].startswith("(-"):      # `sort {-x}` means descending in PRQL: keep negation out of key expressions
                     continue
@@ -390,7 +391,7 @@ class Gen:
                 ks.append(("-" if desc else "") + c.ref)
                 sx.append(f"( {'desc' if desc else 'asc'} ( col {i} ) )")
         keys = [i for i, c in enumerate(frame) if c.key]
-        if keys and rng.random() < total_p:
+        if keys and (rng.random() < total_p or self.simple_sort):
             i = rng.choice(keys)
             if frame[i].ref not in ks and "-" + frame[i].ref not in ks:
                 desc = rng.random() < 0.3
@@ -529,7 +530,7 @@ class Gen:
         rng = self.rng
         form = rng.choice(["plain", "group", "group_sort", "sort_window", "group_sort_window", "sort_fns"])
         inherit = None
-        if getattr(self, "cur_sort", None) and rng.random() < 0.6:
+        if getattr(self, "cur_sort", None) and (rng.random() < 0.85 or self.simple_sort):
             names = [c.name for c in frame]
             if all(n_ in names for n_, _ in self.cur_sort) and any(frame[names.index(n_)].key for n_, _ in self.cur_sort):
                 inherit = [(names.index(n_), d_) for n_, d_ in self.cur_sort]
@@ -594,6 +595,8 @@ class Gen:
         order = "( " + " ".join(order_s) + " )"
         for _ in range(rng.randint(1, 3)):
             pool = fns_aggr + (fns_order if (needs_order and not fr_t) else []) + (["first", "last"] if fr_t else [])
+            if form == "inherit":
+                pool = fns_order + ["sum"]        # values that depend on the inherited order
             fn = rng.choice(pool)
             nm = self.name("w")
             i, c = rng.choice(avail)
@@ -828,7 +831,31 @@ def systematic_let_cases(maxlen, profile, seed=9, kinds=("sort", "take", "filter
     return out
 
 
-def systematic_cases(maxlen, profile, seed=7, sample=None, kinds=ALL_KINDS):
+def inherited_order_cases(profile, seed=5, variants=3, maxmid=2):
+    """`sort K | <up to maxmid order-retaining transforms> | derive {w = order-dependent window function}`: the window function has
+    to see the order established several transforms earlier (seed-independent enumeration)"""
+    import itertools, zlib
+    out = []
+    mids = ["select", "filter", "derive", "take", "exclude"]
+    for n in range(0, maxmid + 1):
+        for mid in itertools.product(mids, repeat=n):
+            seq = ("sort",) + mid + ("window",)
+            for v in range(variants):
+                rng = random.Random(zlib.crc32(repr((seed, v) + seq).encode()))
+                for attempt in range(4):
+                    try:
+                        g = Gen(rng, forced=list(seq), nlets=0, simple_sort=True, **profile)
+                        c = g.program()
+                        c.db = gen_db(rng, g.schema)
+                        c.seq = seq
+                        out.append(c)
+                        break
+                    except NotApplicable:
+                        continue
+    return out
+
+
+def systematic_cases(maxlen, profile, seed=7, sample=None, kinds=ALL_KINDS, variants=1):
     """one program per sequence of transform kinds of length <= maxlen (seed-independent enumeration); `sample`: (rng, n) to
     subsample the longest length"""
     import itertools
@@ -837,9 +864,10 @@ def systematic_cases(maxlen, profile, seed=7, sample=None, kinds=ALL_KINDS):
         seqs = list(itertools.product(kinds, repeat=n))
         if sample and n == maxlen and len(seqs) > sample[1]:
             seqs = sample[0].sample(seqs, sample[1])
-        for seq in seqs:
+        for seq in [s_ for s_ in seqs for _v in range(variants)]:
             import zlib
-            rng = random.Random(zlib.crc32(repr((seed,) + seq).encode()))
+            nth = sum(1 for c_ in out if getattr(c_, "seq", None) == seq)
+            rng = random.Random(zlib.crc32(repr((seed, nth) + seq).encode()))
             for attempt in range(3):
                 try:
                     g = Gen(rng, forced=list(seq), nlets=0, **profile)
